@@ -591,6 +591,22 @@ Theorem calc_preimage_spec b cm p :
   end.
 Proof. exact (calc_preimage_spec_gen stale_langs_counted b cm p). Qed.
 
+(* whatever calc_script_data_hash returns differs from the builder it was given only in the stored hash and its flag *)
+Lemma set_hash_flag_eta b : set_hash_flag b (b_script_data_hash b) (b_hash_calculated b) = b.
+Proof. destruct b; reflexivity. Qed.
+Lemma calc_result clears b cm b' :
+  calc_script_data_hash_gen H clears b cm = Ok b' -> exists h f, b' = set_hash_flag b h f.
+Proof.
+  unfold calc_script_data_hash_gen. destruct (calc_preimage b cm) as [[p|]| | |]; cbn [bind]; try discriminate.
+  - intros E. injection E as <-. eauto.
+  - destruct (clears && b_hash_calculated b); intros E; injection E as <-; [eauto|].
+    exists (b_script_data_hash b), (b_hash_calculated b). symmetry. apply set_hash_flag_eta.
+Qed.
+Lemma calc_result_view clears b cm b' :
+  calc_script_data_hash_gen H clears b cm = Ok b' ->
+  script_view b' = script_view b /\ b_aux b' = b_aux b /\ b_collateral_len b' = b_collateral_len b.
+Proof. intros E. destruct (calc_result _ _ _ _ E) as [h [f ->]]. repeat split; reflexivity. Qed.
+
 Lemma calc_preimage_no_panic b cm : calc_preimage b cm = Err \/ exists p, calc_preimage b cm = Ok p.
 Proof.
   unfold calc_preimage. rewrite calc_preimage_eq. cbv zeta.
@@ -600,10 +616,10 @@ Qed.
 
 (* C09_same_bytes, state form: if the hash in the builder was computed by calc_script_data_hash on a state with the
    same script items, the body's script_data_hash is the ledger's script-integrity hash of the emitted witness set *)
-Theorem same_bytes b0 cm b1 b t :
+Theorem same_bytes_gen (clears : bool) b0 cm b1 b t :
   wf_builder b0 -> known_stale_lang b0 = false ->
-  calc_script_data_hash H b0 cm = Ok b1 ->
-  (has_script_items b0 = true \/ b_script_data_hash b0 = None) ->
+  calc_script_data_hash_gen H clears b0 cm = Ok b1 ->
+  (has_script_items b0 = true \/ b_script_data_hash b0 = None \/ (clears = true /\ b_hash_calculated b0 = true)) ->
   script_view b = script_view b0 -> b_script_data_hash b = b_script_data_hash b1 ->
   build_tx H b = Ok t ->
   let fs := ws_fields (tx_witness_set t) in
@@ -617,14 +633,27 @@ Proof.
     destruct (has_plutus_inputs b && (b_collateral_len b =? 0)); [discriminate|].
     injection Hbuild as <-. split; reflexivity. }
   destruct Ht as [-> ->]. rewrite Hhash, Hws, Hlangs.
-  unfold calc_script_data_hash in Hcalc.
+  unfold calc_script_data_hash_gen in Hcalc.
   destruct (calc_preimage b0 cm) as [p| | |] eqn:EP; cbn [bind] in Hcalc; try discriminate.
   pose proof (calc_preimage_spec b0 cm p Hwf Hstale EP) as HS. cbv zeta in HS.
   destruct p as [pre|].
   - injection Hcalc as <-. destruct HS as [_ [_ HS]]. rewrite HS. reflexivity.
-  - injection Hcalc as <-. destruct HS as [Hno HS]. rewrite HS.
-    destruct Hprior as [Hp|Hp]; [congruence|exact Hp].
+  - destruct HS as [Hno HS]. rewrite HS.
+    destruct (clears && b_hash_calculated b0) eqn:Ec; injection Hcalc as <-; [reflexivity|].
+    destruct Hprior as [Hp|[Hp|[Hc Hf]]]; [congruence|exact Hp|]. rewrite Hc, Hf in Ec. discriminate.
 Qed.
+
+(* C09_same_bytes, state form: if the hash in the builder was computed by calc_script_data_hash on a state with the
+   same script items, the body's script_data_hash is the ledger's script-integrity hash of the emitted witness set *)
+Theorem same_bytes b0 cm b1 b t :
+  wf_builder b0 -> known_stale_lang b0 = false ->
+  calc_script_data_hash H b0 cm = Ok b1 ->
+  (has_script_items b0 = true \/ b_script_data_hash b0 = None \/ (calc_clears_own_hash = true /\ b_hash_calculated b0 = true)) ->
+  script_view b = script_view b0 -> b_script_data_hash b = b_script_data_hash b1 ->
+  build_tx H b = Ok t ->
+  let fs := ws_fields (tx_witness_set t) in
+  tx_script_data_hash t = ledger_script_integrity H (assoc_field 5 fs) (assoc_field 4 fs) (langs_used b) cm.
+Proof. exact (same_bytes_gen calc_clears_own_hash b0 cm b1 b t). Qed.
 
 (* C09_aux: the body's auxiliary_data_hash is the hash of the auxiliary data the transaction carries, as serialised *)
 Theorem aux_hash b t :
@@ -680,7 +709,8 @@ Proof.
   unfold wf_builder. intros Hb. destruct o; cbn [step fst]; try exact Hb.
   - destruct k; exact Hb.
   - unfold add_extra_witness_datum. cbn [b_extra_datums]. destruct (b_extra_datums b) as [l|]; [destruct l|]; discriminate.
-  - unfold calc_script_data_hash. destruct (calc_preimage b cm) as [[p|]| | |]; cbn [bind fst]; exact Hb.
+  - destruct (calc_script_data_hash H b cm) as [b'| | |] eqn:E; cbn [fst]; try exact Hb.
+    destruct (calc_result _ _ _ _ E) as [h [f ->]]. exact Hb.
 Qed.
 
 Lemma wf_run ops : forall b, wf_builder b -> wf_builder (fst (run H b ops)).
@@ -696,7 +726,7 @@ Theorem same_bytes_history ops cm before t :
   let b0 := fst (run H builder_new (rev before)) in
   let b := fst (run H builder_new ops) in
   is_ok (calc_script_data_hash H b0 cm) = true ->
-  has_script_items b0 || is_none (b_script_data_hash b0) = true ->
+  has_script_items b0 || is_none (b_script_data_hash b0) || (calc_clears_own_hash && b_hash_calculated b0) = true ->
   known_stale_lang b0 = false ->
   build_tx H b = Ok t ->
   let fs := ws_fields (tx_witness_set t) in
@@ -712,12 +742,13 @@ Proof.
   assert (Hq' : Forall quiet (rev rpost)) by (apply Forall_rev, Hq).
   destruct (quiet_run _ Hq' b1) as [E1 E2]. rewrite <- Hb in E1, E2.
   assert (Hv1 : script_view b1 = script_view b0).
-  { unfold calc_script_data_hash in Ec. destruct (calc_preimage b0 cm) as [[p|]| | |]; cbn [bind] in Ec; try discriminate;
-      injection Ec as <-; reflexivity. }
+  { apply (calc_result_view _ _ _ _ Ec). }
   apply (same_bytes b0 cm b1 b t); try assumption.
   - apply wf_run, wf_new.
-  - apply orb_true_iff in Hprior as [Hp|Hp]; [left; exact Hp|right].
-    unfold is_none in Hp. destruct (b_script_data_hash b0); [discriminate|reflexivity].
+  - apply orb_true_iff in Hprior as [Hp|Hp]; [apply orb_true_iff in Hp as [Hp|Hp]|].
+    + left. exact Hp.
+    + right. left. unfold is_none in Hp. destruct (b_script_data_hash b0); [discriminate|reflexivity].
+    + right. right. apply andb_true_iff in Hp. exact Hp.
   - congruence.
 Qed.
 
@@ -746,11 +777,14 @@ Proof.
   rewrite lang_eqb_refl in Hm. discriminate.
 Qed.
 
-(* calc_script_data_hash on a builder without script items changes nothing — a hash set earlier stays *)
-Lemma calc_noop_keeps_hash b cm : has_script_items b = false -> wf_builder b -> known_stale_lang b = false ->
-  calc_script_data_hash H b cm = Ok b.
+(* calc_script_data_hash on a builder without script items: nothing to hash.  As found (clears = false) nothing changes —
+   a hash stored earlier stays, whoever stored it; repaired (clears = true) a hash that calc itself stored is removed,
+   a hash given with set_script_data_hash stays *)
+Lemma calc_noop clears b cm : has_script_items b = false -> wf_builder b -> known_stale_lang b = false ->
+  calc_script_data_hash_gen H clears b cm =
+  Ok (if clears && b_hash_calculated b then set_hash_flag b None false else b).
 Proof.
-  intros Hno Hwf Hstale. unfold calc_script_data_hash.
+  intros Hno Hwf Hstale. unfold calc_script_data_hash_gen.
   destruct (calc_preimage_no_panic b cm) as [E|[p E]].
   - exfalso. unfold calc_preimage in E. rewrite calc_preimage_eq in E. cbv zeta in E.
     unfold has_script_items in Hno. apply orb_false_iff in Hno as [Hw _].
@@ -760,8 +794,12 @@ Proof.
     rewrite Hu in E. cbn [retain_or_fail bind] in E.
     match type of E with (if ?c then _ else _) = _ => destruct c end; discriminate.
   - rewrite E. cbn [bind]. pose proof (calc_preimage_spec b cm p Hwf Hstale E) as HS. cbv zeta in HS.
-    destruct p as [pre|]; [destruct HS as [Hi _]; congruence|reflexivity].
+    destruct p as [pre|]; [destruct HS as [Hi _]; congruence|]. destruct (clears && b_hash_calculated b); reflexivity.
 Qed.
+
+Lemma calc_noop_keeps_hash b cm : has_script_items b = false -> wf_builder b -> known_stale_lang b = false ->
+  calc_script_data_hash_gen H false b cm = Ok b.
+Proof. intros Hno Hwf Hs. rewrite (calc_noop false b cm Hno Hwf Hs). reflexivity. Qed.
 
 End Builder.
 
@@ -848,9 +886,12 @@ Proof.
       * destruct (set_sub_same_items b k ss n Ew Hold) as [E1 E2]. rewrite E1, E2. exact Hi.
       * right. apply has_items_set_sub. rewrite Ew. reflexivity.
   - split; [exact Hst|]. right. unfold has_script_items, add_extra_witness_datum. cbn [b_extra_datums is_some]. apply orb_true_r.
-  - unfold calc_script_data_hash. destruct (calc_preimage b cm) as [p| | |] eqn:EP; cbn [bind fst]; try (split; assumption).
+  - unfold calc_script_data_hash, calc_script_data_hash_gen. destruct (calc_preimage b cm) as [p| | |] eqn:EP; cbn [bind fst]; try (split; assumption).
     pose proof (calc_preimage_spec H b cm p Hwf (no_stale_known b Hst) EP) as HS. cbv zeta in HS.
-    destruct p as [pre|]; cbn [fst]; [|split; assumption]. destruct HS as [Hitems _]. split; [exact Hst|]. right. exact Hitems.
+    destruct p as [pre|]; cbn [fst].
+    + destruct HS as [Hitems _]. split; [exact Hst|]. right. exact Hitems.
+    + destruct (calc_clears_own_hash && b_hash_calculated b); cbn [fst]; [|split; assumption].
+      split; [exact Hst|]. left. reflexivity.
   - discriminate.
   - split; [exact Hst|]. left. reflexivity.
   - split; assumption.
@@ -895,7 +936,7 @@ Proof.
   destruct Hi as [Hst Hi].
   apply (same_bytes_history H ops cm before t Hl Hok); [|apply no_stale_known, Hst|exact Hbuild].
   unfold b0 in Hi. destruct Hi as [Hn|Hitems].
-  - rewrite Hn. apply orb_true_r.
+  - rewrite Hn. cbn [is_none is_some negb]. rewrite orb_true_r. reflexivity.
   - rewrite Hitems. reflexivity.
 Qed.
 
@@ -936,21 +977,36 @@ Definition noop_calc_ops : list op :=
   [OpSetSub SubCollateral (mk_sub [] [] []) 1; OpSetSub SubInputs (mk_sub [stale_lang_witness] [] []) 0; OpCalc stale_lang_cm;
    OpSetSub SubInputs (mk_sub [] [V2] []) 0; OpCalc stale_lang_cm].
 
+(* the state before the last calc: the first calc stored a hash, then the inputs builder was replaced *)
+Definition noop_state (H : bytes -> bytes) : builder := fst (run H builder_new (removelast noop_calc_ops)).
+(* the same with a Plutus mint replaced by a native-only mint builder (no stale registration: build_tx does not insist on a hash) *)
+Definition noop_mint_ops : list op :=
+  [OpSetSub SubCollateral (mk_sub [] [] []) 1; OpSetSub SubMint (mk_sub [mk_witness (SrcRef V2) DatumNone (mk_redeemer 1 0 (mk_pdata 1 [1]) 10 20)] [] []) 0;
+   OpCalc stale_lang_cm; OpSetSub SubMint (mk_sub [] [] [[130; 0; 1]]) 0].
+Definition noop_mint_state (H : bytes -> bytes) : builder := fst (run H builder_new noop_mint_ops).
+
 Theorem noop_calc_refuted (H : bytes -> bytes) :
-  exists t p,
-    build_tx H (fst (run H builder_new noop_calc_ops)) = Ok t /\
+  (* the code as found (clears = false): the last calc returns Ok and changes nothing; build_tx emits the earlier hash
+     although the witness set has neither redeemers nor datums: the ledger expects NO script_data_hash *)
+  (exists t p,
+    noop_shape (noop_state H) = true /\
+    calc_script_data_hash_gen H false (noop_state H) stale_lang_cm = Ok (noop_state H) /\
+    build_tx H (noop_state H) = Ok t /\
     tx_script_data_hash t = Some (H p) /\
     (let fs := ws_fields (tx_witness_set t) in
      assoc_field 5 fs = None /\ assoc_field 4 fs = None /\
-     ledger_script_integrity H (assoc_field 5 fs) (assoc_field 4 fs) (langs_used (fst (run H builder_new noop_calc_ops))) stale_lang_cm = None) /\
-    snd (run H builder_new noop_calc_ops) = [true; true] /\          (* both calc calls return Ok *)
-    known_noop_calc H noop_calc_ops = true /\
-    additive H builder_new noop_calc_ops = false /\                  (* a replacement, not an addition, in the sense of same_bytes_additive *)
-    (* without the first calc the same calls are refused by build_tx *)
-    build_tx H (fst (run H builder_new [OpSetSub SubCollateral (mk_sub [] [] []) 1; OpSetSub SubInputs (mk_sub [] [V2] []) 0; OpCalc stale_lang_cm])) = Err.
+     ledger_script_integrity H (assoc_field 5 fs) (assoc_field 4 fs) (langs_used (noop_state H)) stale_lang_cm = None)) /\
+  (* repaired (clears = true): the hash calc had stored is removed; with a stale registration build_tx then refuses
+     ("Plutus inputs are present, but script data hash is not specified"), exactly as without the first calc;
+     with a replaced mint builder it builds a transaction without script_data_hash *)
+  (exists b', calc_script_data_hash_gen H true (noop_state H) stale_lang_cm = Ok b' /\ b_script_data_hash b' = None /\ build_tx H b' = Err) /\
+  (exists b' t, noop_shape (noop_mint_state H) = true /\
+     calc_script_data_hash_gen H true (noop_mint_state H) stale_lang_cm = Ok b' /\ build_tx H b' = Ok t /\ tx_script_data_hash t = None) /\
+  additive H builder_new noop_calc_ops = false.
 Proof.
-  eexists _, _. split; [reflexivity|]. split; [reflexivity|]. split; [repeat split; reflexivity|].
-  repeat split; reflexivity.
+  split; [eexists _, _; repeat split; reflexivity|].
+  split; [eexists; repeat split; reflexivity|].
+  split; [eexists _, _; repeat split; reflexivity|reflexivity].
 Qed.
 
 (* ================================================================== auxiliary data: histories and wire forms *)
@@ -964,7 +1020,8 @@ Lemma step_aux b o : b_aux (fst (step H b o)) = aux_step (b_aux b) o.
 Proof.
   destruct o; cbn [step fst aux_step]; try reflexivity.
   - destruct k; reflexivity.
-  - unfold calc_script_data_hash. destruct (calc_preimage b cm) as [[p|]| | |]; reflexivity.
+  - destruct (calc_script_data_hash H b cm) as [b'| | |] eqn:E; cbn [fst]; try reflexivity.
+    apply (calc_result_view H _ _ _ _ E).
 Qed.
 
 Lemma run_aux ops : forall b, b_aux (fst (run H b ops)) = fold_left aux_step ops (b_aux b).
